@@ -716,6 +716,8 @@ func init() {
 			c.ruleVPNIndex()
 			c.ruleRTCReevaluate()
 			c.ruleRTCFilter()
+			c.ruleImportTestTotal("E6.import-test-total")
+			c.ruleWithdrawalsFirst("E6.withdrawals-first")
 			c.ruleRefreshExclusion()
 		},
 	})
